@@ -8,6 +8,14 @@ BFS = "explicit-state breadth-first search over operation sequences of the real 
 
 # id -> (built?, technique, level text, level note, design ref)
 P = {
+ "C07": (True, BFS + "; two-register machines over Fr, Fq, Fq2 with scripted RNG streams, set_bit, hash/byte/decimal conversions",
+         "Every operation sequence up to the depth bound of the field register machines, executed on the real code; exact-state de-duplication (canonical bytes + canonicity flag); in every reached state: fully reduced, is_zero iff encoding 0, == iff encodings equal, encoding equals the model value; a watchdog turns a non-returning call into a violation.",
+         "Bounded depth and finite menus (constants, bit indices, RNG scripts). Trusted: rustc, num-bigint, reference model.",
+         "DESIGN.md 5 (C07)"),
+ "C13": (True, GRID + "; every length 0..=70, every byte string of length <= 2, every short string over a 14-character alphabet, every bit index 0..=300",
+         "All conversions (from_slice, TryFrom, interpret, from_str, from_hash, to_slice, to_big_endian, set_bit) on complete small scopes and boundary patterns at every length, compared with integer arithmetic (int(bytes) mod p, (int mod (r-1))+1, decimal value mod p).",
+         "from_str(\"\") and setting bit indices >= 256 deliberately unconstrained. Trusted: rustc, num-bigint.",
+         "DESIGN.md 5 (C13)"),
  "C06": (True, GRID + "; products of limb-boundary alphabets for Fq and Fr",
          "Every ordered pair of the FP(p) alphabet (canonical and Montgomery-targeted limb patterns, special values, paired partners) through + - * ==, every operator form, every unary operation, a^e for designated exponents and for EVERY exponent below a bound, each compared with BigUint arithmetic mod p; model-side carry-class histogram must have no empty feasible class.",
          "Holds on every element of the enumerated finite space, not for all 2^256 inputs. Trusted: rustc, num-bigint, reference model (validated against the published SM9 vectors at start).",
